@@ -256,7 +256,7 @@ func c19Programs(r *core.Rng, n int) []string {
 	b := func() string { return c19Bounds[r.Intn(len(c19Bounds))] }
 	var out []string
 	for len(out) < n {
-		switch r.Intn(12) {
+		switch r.Intn(15) {
 		case 0, 1, 2, 3, 4:
 			fn := names[r.Intn(len(names))]
 			if fn == "CALL" {
@@ -305,6 +305,61 @@ func c19Programs(r *core.Rng, n int) []string {
 		case 10:
 			out = append(out, "DECLARE c CURSOR FOR SELECT id FROM t; OPEN c; VAR @x; FETCH ABSOLUTE "+b()+" c INTO @x; FETCH RELATIVE "+b()+" c INTO @x; PRINT @x;",
 				"SELECT SUBSTR('abc', "+b()+", "+b()+"), SUBSTRING('abc' FROM "+b()+" FOR "+b()+"), LPAD('a', "+b()+", "+b()+"), REPLACE('a', '', "+b()+");")
+		case 13:
+			// boundary values as operands of statements (not of functions)
+			flags := []string{"@@DELIMITER", "@@FORMAT", "@@LINE_BREAK", "@@TIMEZONE", "@@CPU", "@@WAIT_TIMEOUT", "@@LIMIT_RECURSION", "@@DATETIME_FORMAT", "@@ENCODING", "@@WRITE_ENCODING", "@@JSON_ESCAPE", "@@STRICT_EQUAL", "@@QUIET", "@@NO_SUCH_FLAG"}
+			fl := flags[r.Intn(len(flags))]
+			cands := []string{
+				"EXECUTE " + b() + ";", "EXECUTE " + b() + " USING " + b() + ";", "EXECUTE 'SELECT %s, %s' USING " + b() + ";", "SOURCE " + b() + ";",
+				"PREPARE p19 FROM " + b() + ";", "PREPARE p19 FROM 'SELECT ?, ?'; EXECUTE p19 USING " + b() + "; DISPOSE PREPARE p19;", "PREPARE p19 FROM 'SELECT :a'; EXECUTE p19 USING " + b() + " AS a, " + b() + " AS zz; DISPOSE PREPARE p19;",
+				"SET " + fl + " TO " + b() + ";", "ADD " + b() + " TO @@DATETIME_FORMAT;", "REMOVE " + b() + " FROM @@DATETIME_FORMAT;", "SHOW " + fl + ";",
+				"PRINT " + b() + ";", "ECHO " + b() + ";", "PRINTF " + b() + " USING " + b() + ", " + b() + ";", "PRINTF '%s %d %f %q %i %T %%' USING " + b() + ", " + b() + ";",
+				"TRIGGER ERROR " + b() + " " + b() + ";", "TRIGGER ERROR " + b() + ";", "IF " + b() + " THEN PRINT 1; ELSEIF " + b() + " THEN PRINT 2; END IF;", "CASE " + b() + " WHEN " + b() + " THEN PRINT 1; ELSE PRINT 2; END CASE;",
+				"VAR @w19 := 0; WHILE @w19 < 2 AND " + b() + " DO @w19 := @w19 + 1; END WHILE; DISPOSE @w19;", "DECLARE f19 FUNCTION (@a DEFAULT " + b() + ") AS BEGIN RETURN @a; END; SELECT f19(), f19(" + b() + "); DISPOSE FUNCTION f19;",
+				"SYNTAX " + b() + ";", "SHOW FIELDS FROM t;", "SHOW " + []string{"TABLES", "VIEWS", "CURSORS", "FUNCTIONS", "STATEMENTS", "FLAGS", "ENV", "RUNINFO", "NOTHING"}[r.Intn(9)] + ";",
+				"DECLARE v19 VIEW (a, b) AS SELECT " + b() + ", " + b() + "; SELECT * FROM v19; DISPOSE VIEW v19;", "CREATE TABLE `n19.csv` (a, a2) AS SELECT " + b() + ", " + b() + "; ROLLBACK;",
+				"SELECT " + b() + " INTO @nosuch FROM t;", "VAR @i19; SELECT id INTO @i19 FROM t WHERE id = " + b() + "; DISPOSE @i19;", "SELECT * FROM t WHERE id = " + b() + " FOR UPDATE; ROLLBACK;",
+				"SET @%NOSUCH19 TO " + b() + "; UNSET @%NOSUCH19;", "SELECT @%HOME, @#VERSION, @#NOSUCH;", "CHDIR " + b() + ";", "PWD;", "RELOAD CONFIG;",
+			}
+			out = append(out, cands[r.Intn(len(cands))])
+		case 11, 12:
+			// relational operators over degenerate operands: an empty table, tables without a common key, one row, and
+			// tables large enough to be split over workers (so that single workers see no row / no match)
+			tabs := []string{"t", "e", "d", "one", "big", "big2", "(SELECT * FROM big WHERE id < 0)", "(SELECT * FROM big WHERE id > 390)"}
+			A, B := tabs[r.Intn(len(tabs))], tabs[r.Intn(len(tabs))]
+			jk := []string{"INNER", "LEFT", "RIGHT", "FULL", "LEFT OUTER", "FULL OUTER"}[r.Intn(6)]
+			switch r.Intn(12) {
+			case 0:
+				out = append(out, fmt.Sprintf("SELECT COUNT(*) FROM %s x %s JOIN %s y ON x.k = y.k;", A, jk, B))
+			case 1:
+				out = append(out, fmt.Sprintf("SELECT COUNT(*) FROM %s x NATURAL %s JOIN %s y;", A, jk, B), fmt.Sprintf("SELECT COUNT(*) FROM %s x %s JOIN %s y USING (k, id);", A, jk, B))
+			case 2:
+				out = append(out, fmt.Sprintf("SELECT COUNT(*) FROM %s x CROSS JOIN %s y;", A, B), fmt.Sprintf("SELECT COUNT(*) FROM %s x, LATERAL (SELECT * FROM %s y WHERE y.k = x.k) z;", A, B), fmt.Sprintf("SELECT COUNT(*) FROM %s x LEFT JOIN LATERAL (SELECT * FROM %s y WHERE y.id = x.id) z ON 1 = 1;", A, B))
+			case 3:
+				op := []string{"UNION", "UNION ALL", "EXCEPT", "EXCEPT ALL", "INTERSECT", "INTERSECT ALL"}[r.Intn(6)]
+				out = append(out, fmt.Sprintf("SELECT k, v FROM %s x %s SELECT k, v FROM %s y;", A, op, B))
+			case 4:
+				out = append(out, fmt.Sprintf("SELECT k, COUNT(*), MAX(v), MEDIAN(v), LISTAGG(v, ',') FROM %s x GROUP BY k HAVING COUNT(*) > %d;", A, r.Intn(3)), fmt.Sprintf("SELECT COUNT(*), SUM(v), AVG(v), MIN(k), JSON_AGG(v) FROM %s x;", A))
+			case 5:
+				out = append(out, fmt.Sprintf("SELECT DISTINCT k, v FROM %s x ORDER BY k DESC NULLS FIRST, v LIMIT %s;", A, b()))
+			case 6:
+				out = append(out, fmt.Sprintf("SELECT id, RANK() OVER (PARTITION BY k ORDER BY v), SUM(v) OVER (PARTITION BY k), LAG(v, 2) OVER (ORDER BY id), NTILE(3) OVER (ORDER BY id) FROM %s x;", A))
+			case 7:
+				out = append(out, fmt.Sprintf("SELECT COUNT(*) FROM %s x WHERE k IN (SELECT k FROM %s y) OR EXISTS (SELECT 1 FROM %s z WHERE z.k = x.k) OR v > ALL (SELECT v FROM %s w);", A, B, B, B))
+			case 8:
+				out = append(out, fmt.Sprintf("SELECT (SELECT MAX(v) FROM %s y WHERE y.k = x.k), (SELECT v FROM %s y WHERE y.id = x.id) FROM %s x;", B, B, A))
+			case 9:
+				if !strings.HasPrefix(A, "(") {
+					out = append(out, fmt.Sprintf("UPDATE %s SET v = 1 WHERE k IN (SELECT k FROM %s y); DELETE FROM %s WHERE id IN (SELECT id FROM %s y); ROLLBACK;", A, B, A, B),
+						fmt.Sprintf("INSERT INTO %s SELECT * FROM %s y; REPLACE INTO %s (id, k, v) USING (id) SELECT id, k, v FROM %s y; ROLLBACK;", A, B, A, B))
+				}
+			case 10:
+				if !strings.HasPrefix(A, "(") && !strings.HasPrefix(B, "(") {
+					out = append(out, fmt.Sprintf("UPDATE %s SET v = y.v FROM %s x %s JOIN %s y ON x.id = y.id; ROLLBACK;", A, A, []string{"INNER", "LEFT"}[r.Intn(2)], B), fmt.Sprintf("DELETE %s FROM %s JOIN %s y ON %s.k = y.k; ROLLBACK;", A, A, B, A))
+				}
+			default:
+				out = append(out, fmt.Sprintf("WITH w AS (SELECT * FROM %s) SELECT COUNT(*) FROM w a %s JOIN w b ON a.id = b.id + 1;", A, jk), fmt.Sprintf("DECLARE c CURSOR FOR SELECT id FROM %s x ORDER BY id; OPEN c; VAR @x; WHILE @x IN c DO VAR @y := @x; END WHILE; CLOSE c; DISPOSE CURSOR c; DISPOSE @x;", A))
+			}
 		default:
 			e, _, _ := c14Expr(r, r.Intn(500))
 			out = append(out, "SELECT "+e+" FROM t;", "UPDATE t SET v = "+e+"; ROLLBACK;", "SELECT * FROM t WHERE "+e+";")
@@ -315,8 +370,17 @@ func c19Programs(r *core.Rng, n int) []string {
 
 func c19ProgramFuzz(w *core.Worker, i int) {
 	r := w.Rng(i, "prog")
-	core.WriteFiles(w.Work, map[string]string{"t.csv": "id,k,v\n1,a,3\n2,a,\n3,b,-1\n4,b,2.5\n5,,x\n"})
-	s, err := core.NewSess(core.SessOpts{Dir: w.Work, Quiet: true})
+	var big, big2 strings.Builder
+	big.WriteString("id,k,v\n")
+	big2.WriteString("id,k,v\n")
+	for j := 1; j <= 400; j++ {
+		// keys are clustered: the first workers of a section see only 'a', later ones only 'b' / 'c'
+		fmt.Fprintf(&big, "%d,%s,%d\n", j, []string{"a", "a", "b", "c"}[(j-1)/100], j%7)
+		fmt.Fprintf(&big2, "%d,%s,%d\n", j+1000, []string{"x", "y", "a", "y"}[(j-1)/100], j%5)
+	}
+	core.WriteFiles(w.Work, map[string]string{"t.csv": "id,k,v\n1,a,3\n2,a,\n3,b,-1\n4,b,2.5\n5,,x\n", "e.csv": "id,k,v\n", "d.csv": "id,k,v\n11,p,1\n12,q,2\n", "one.csv": "id,k,v\n1,a,1\n",
+		"big.csv": big.String(), "big2.csv": big2.String()})
+	s, err := core.NewSess(core.SessOpts{Dir: w.Work, Quiet: true, CPU: 4})
 	if err != nil {
 		w.Inconclusive(err.Error())
 		return
@@ -337,7 +401,7 @@ func c19ProgramFuzz(w *core.Worker, i int) {
 			viol("fatal:"+c19FatalSig(res.Err.Error()), truncateStr(res.Err.Error(), 400))
 		} else if res.Err != nil {
 			failed++
-			if res.Code != 1 && res.Code != 2 && res.Code != 4 && res.Code != 8 && res.Code != 16 && res.Code != 32 && res.Code != 64 {
+			if res.Code != 1 && res.Code != 2 && res.Code != 4 && res.Code != 8 && res.Code != 16 && res.Code != 32 && res.Code != 64 && !strings.HasPrefix(p, "TRIGGER ERROR") { // TRIGGER ERROR n requests its own code
 				viol("exit-code", fmt.Sprintf("error code %d is not a documented exit status: %v", res.Code, res.Err))
 			}
 		} else {
@@ -346,7 +410,7 @@ func c19ProgramFuzz(w *core.Worker, i int) {
 		s.Exec("ROLLBACK;")
 		w.Case(core.Digest(p), !res.SynErr)
 		// a sample through the real binary: exit code set, stderr markers
-		if k%25 == 0 {
+		if k%25 == 0 && !strings.HasPrefix(p, "TRIGGER ERROR") {
 			pr := core.RunProc(core.ProcOpts{Dir: w.Work, Args: csvqArgs("-q", "--wait-timeout", "1", p), Timeout: 60 * time.Second})
 			c19JudgeProc(w, pr, "program", p, nil)
 		}
